@@ -121,7 +121,12 @@ def decide(gd, idx, cls):
                 rmax = float(an.rmax_solve(prune))
             except OracleInconclusive:
                 rmax = None
-            if d.get("all_quiet"):
+            if d.get("phase") == "other":
+                # the graph steps (backward search, restriction, pruning, blanking) are finite algorithms needing at most ~n^2 steps;
+                # exhausting a budget of >= 2e4 sweeps' worth of jumps there is a loop that does not end
+                problems.append({"mode": mode, "problem": "solver does not terminate: loop in %s exceeded the step budget (%d backward jumps)"
+                                 % (d.get("function"), out.steps), "diag": d})
+            elif d.get("all_quiet"):
                 problems.append({"mode": mode, "problem": "solver does not terminate: the %s iteration keeps running although no tracked quantity changes by more than the threshold any more"
                                  % d.get("phase"), "diag": d})
             elif rmax is not None and d.get("max_expected_rewards", 0) > 2 * rmax + 1:
